@@ -49,10 +49,20 @@ def failedE (c : WCfg) (scale : Int → Int) (flush : Bool) (s : SW) (r : WRec) 
     (if cl then closeE s else []) ++
     (if (if cl then close s else s).cur.isNone then createE c flush (if cl then close s else s) r.infoBytes else [])
 
+/-- a segmented Write: the effects of the first segment, then those of the continuation written by the nested write().
+    (The log acknowledges the first segment as soon as it is in the file, which is EARLIER than the caller's single
+    response: the crash theorems then demand more than the property does, never less.) -/
+def segE (c : WCfg) (scale : Int → Int) (flush : Bool) (s : SW) (r n : WRec) : List Eff :=
+  if (write c scale s r).2.err then writeE c scale flush s r
+  else match fitClose c scale (write c scale s r).1 n.decl with
+    | none => failedE c scale flush s r
+    | some _ => writeE c scale flush s r ++ writeE c scale flush (write c scale s r).1 n
+
 def stepE (c : WCfg) (scale : Int → Int) (flush : Bool) (s : SW) : WOp → List Eff
   | .write r => writeE c scale flush s r
   | .rotate => closeE s
   | .failed r => failedE c scale flush s r
+  | .seg r n => segE c scale flush s r n
 
 def runE (c : WCfg) (scale : Int → Int) (flush : Bool) (s : SW) : List WOp → List Eff
   | [] => []
@@ -134,21 +144,34 @@ theorem write_log (c : WCfg) (scale : Int → Int) (flush : Bool) (s : SW) (r : 
     rw [append_log flush (ready c s cl r.infoBytes) id _ hr hid, ready_log c flush s cl r.infoBytes h]
     simp [List.append_assoc]
 
+theorem failed_log (c : WCfg) (scale : Int → Int) (flush : Bool) (s : SW) (r : WRec) (h : Inv s) :
+    effectLog flush (writeFailed c scale s r).1.files = effectLog flush s.files ++ failedE c scale flush s r := by
+  rw [writeFailed_eq]
+  unfold failedE
+  cases fitClose c scale s r.decl with
+  | none => simp
+  | some cl =>
+    simp only
+    rw [ready_log c flush s cl r.infoBytes h]
+    simp [List.append_assoc]
+
 theorem step_log (c : WCfg) (scale : Int → Int) (flush : Bool) (s : SW) (op : WOp) (h : Inv s) :
     effectLog flush (step c scale s op).1.files = effectLog flush s.files ++ stepE c scale flush s op := by
   cases op with
   | write r => exact write_log c scale flush s r h
   | rotate => exact close_log flush s h
-  | failed r =>
-    show effectLog flush (writeFailed c scale s r).1.files = effectLog flush s.files ++ failedE c scale flush s r
-    rw [writeFailed_eq]
-    unfold failedE
-    cases fitClose c scale s r.decl with
-    | none => simp
-    | some cl =>
-      simp only
-      rw [ready_log c flush s cl r.infoBytes h]
-      simp [List.append_assoc]
+  | failed r => exact failed_log c scale flush s r h
+  | seg r n =>
+    show effectLog flush (writeSeg c scale s r n).1.files = effectLog flush s.files ++ segE c scale flush s r n
+    unfold writeSeg segE
+    by_cases h1 : (write c scale s r).2.err = true
+    · simp only [h1, ↓reduceIte]; exact write_log c scale flush s r h
+    · simp only [h1, Bool.false_eq_true, ↓reduceIte]
+      cases hfit : fitClose c scale (write c scale s r).1 n.decl with
+      | none => exact failed_log c scale flush s r h
+      | some cl =>
+        simp only
+        rw [write_log c scale flush _ n (write_inv c scale s r h), write_log c scale flush s r h, List.append_assoc]
 
 /-- **the log is the run**: the effects issued step by step along any run of the writer are exactly the effect log of
     the files the run ends with -/
